@@ -477,6 +477,18 @@ func (fv *FnV) libCall(st *State, callee *ssa.Function, cc *ssa.CallCommon, pos 
 	case "fmt.Errorf", "errors.New":
 		e := fv.nonNilError(st, "new")
 		return &SV{v: Val{e, sAny}, typ: sig.Results().At(0).Type()}, nil
+	case "strconv.Atoi":
+		// library contract: Atoi is a function of its text - the decimal value when the text is a decimal numeral
+		// (spec!AtoiOK), an error and 0 otherwise. Another parser (ParseInt with a base, ParseFloat) is not this function.
+		fv.ensureSpec("spec!Atoi", "(declare-fun spec!Atoi (Str) (_ BitVec 64))")
+		fv.ensureSpec("spec!AtoiOK", "(declare-fun spec!AtoiOK (Str) Bool)")
+		ok := app("spec!AtoiOK", arg(0))
+		e := fv.nonNilError(st, "atoi")
+		v := fv.c.Define("atoi", sBV64, ite(ok, app("spec!Atoi", arg(0)), bvLit(0, 64)))
+		ev := fv.c.Define("atoierr", sAny, ite(ok, "a!nil", e))
+		ares := &SV{tup: []SV{{v: Val{v, sBV64}, typ: types.Typ[types.Int]}, {v: Val{ev, sAny}, typ: sig.Results().At(1).Type()}}, typ: sig.Results()}
+		fv.recordErrCall(st, name, sig, ares, pos)
+		return ares, nil
 	case "strings.Compare":
 		fv.ensureStrCmp()
 		c := app("str!cmp", arg(0), arg(1))
